@@ -14,6 +14,7 @@
 package c02
 
 import (
+	"encoding/json"
 	"fmt"
 	"os"
 	"sort"
@@ -245,6 +246,7 @@ func classFor(i int) string {
 }
 
 func Run(c *core.Ctx) core.FinishOpts {
+	applyReplay(c)
 	nCases := c.Pick(300, 6500)
 	big := c.Pick(1500, 3000)
 	selftest := os.Getenv("VERIF_SELFTEST") == "1"
@@ -295,7 +297,14 @@ func Run(c *core.Ctx) core.FinishOpts {
 				return
 			}
 		}
+		// coverage of the NULL-key input predicate (stays meaningful after the findings are fixed)
+		if !joinref.BagOf(q.Eval(joinref.Defect{InnerKeys: true, OuterKeys: true})).Equal(joinref.BagOf(exp0)) {
+			c.Count("inputs_with_null_on_both_sides_of_a_key_conjunct", 1)
+		}
 		for r, cfg := range runs {
+			if cfg.mode == "batch_table" && len(exp0) > 2500 {
+				cfg.mode = "stream_native" // the table printer needs tens of seconds for large outputs
+			}
 			id := fmt.Sprintf("c%d/%d", i, r)
 			if c.Only != "" && c.Only != id && c.Only != fmt.Sprintf("c%d", i) {
 				continue
@@ -380,7 +389,12 @@ func one(c *core.Ctx, runner *cli.Runner, id string, cs *joinref.Case, cfg runCf
 	if res.Panicked() {
 		site, msg := res.PanicSite()
 		c.Eval(1)
-		c.Violation("panic:"+site, "octosql crashed: "+msg, replay)
+		key := "panic:" + site
+		if strings.HasPrefix(site, "outputs/batch/live_output.go") && !(hasOuter(q) && q.Limit >= 0 && len(q.OrderBy) > 0 && cfg.mode == "batch_table") {
+			// the listed finding is: ORDER BY + LIMIT above an outer join printed by the table printer
+			key += "/without-outer-join-orderby-limit"
+		}
+		c.Violation(key, "octosql crashed: "+msg, replay)
 		return
 	}
 	if res.Exit != 0 {
@@ -538,4 +552,29 @@ func firstLine(s string) string {
 		}
 	}
 	return trunc(strings.SplitN(s, "\n", 2)[0], 160)
+}
+
+// applyReplay makes `--replay <file>` re-execute exactly the recorded case: seed, tier and case id
+// are taken from the replay file (case ids are a function of (seed, tier, index)).
+func applyReplay(c *core.Ctx) {
+	if c.Replay == "" {
+		return
+	}
+	data, err := os.ReadFile(c.Replay)
+	if err != nil {
+		fmt.Fprintln(os.Stderr, "cannot read replay file:", err)
+		return
+	}
+	var r struct {
+		Seed int64  `json:"seed"`
+		Tier string `json:"tier"`
+		Case struct {
+			ID string `json:"id"`
+		} `json:"case"`
+	}
+	if err := json.Unmarshal(data, &r); err != nil || r.Case.ID == "" {
+		fmt.Fprintln(os.Stderr, "replay file has no case id")
+		return
+	}
+	c.Seed, c.Tier, c.Only = r.Seed, r.Tier, r.Case.ID
 }
